@@ -480,42 +480,47 @@ func c02Traversal(c *Ctx) {
 				})
 				r.Check(headTrue && tailSlice && fromEach, "C02.P3", key+"#composition", p.Pos(fd.Pos()), "the head is traversed to nodes, and the tail And[1:] is traversed from each head result", fmt.Sprintf("composition is not `head (fetching nodes) then tail from each head result` (head fetches nodes: %v, tail is And[1:]: %v, continues from each result: %v)", headTrue, tailSlice, fromEach))
 			}
-			// inverse / forward arms of the regular property step
-			var invIf *ast.IfStmt
+			// inverse / forward arms of a property step, decided on what the function emits when <property>.Inverse is true and
+			// when it is false (E-sym, two worlds): however the choice is written (if/else, switch, helper)
+			if fd.Type.Params == nil || len(fd.Type.Params.List) == 0 || len(fd.Type.Params.List[0].Names) == 0 {
+				continue
+			}
+			prm0 := info.Defs[fd.Type.Params.List[0].Names[0]]
+			if prm0 == nil || !hasField(prm0.Type(), "Inverse") {
+				continue
+			}
+			mentionsInverse := false
 			ast.Inspect(fd.Body, func(n ast.Node) bool {
-				if ifs, ok := n.(*ast.IfStmt); ok {
-					if sel, ok := ast.Unparen(ifs.Cond).(*ast.SelectorExpr); ok && sel.Sel.Name == "Inverse" {
-						invIf = ifs
-					}
+				if sel, ok := n.(*ast.SelectorExpr); ok && sel.Sel.Name == "Inverse" {
+					mentionsInverse = true
 				}
 				return true
 			})
-			if invIf != nil {
-				bi := &brInterp{pk: gen}
-				text := func(n ast.Node) string {
-					var out []string
-					ast.Inspect(n, func(q ast.Node) bool {
-						if call, ok := q.(*ast.CallExpr); ok {
-							if id, ok := call.Fun.(*ast.Ident); ok && id.Name == "append" && len(call.Args) >= 2 {
-								for _, a := range call.Args[1:] {
-									if t, ok := bi.textOf(a); ok {
-										out = append(out, t)
-									}
-								}
-							}
-						}
-						return true
-					})
-					return strings.Join(out, "\n")
-				}
-				inv, fwd := text(invIf.Body), ""
-				if invIf.Else != nil {
-					fwd = text(invIf.Else)
-				}
-				okInv := strings.Contains(inv, "search_") && strings.Contains(inv, "with data.object as") && !strings.Contains(fwd, "search_")
-				okFwd := fwd != "" && (strings.Contains(fwd, "nested_nodes") || strings.Contains(fwd, "object.get") || strings.Contains(fwd, "gen_path_extension"))
-				r.Check(okInv && okFwd, "C02.P3", key+"#converse", p.Pos(invIf.Pos()), "p^ searches the subjects whose p is the current node; p reads the current node's p", "the Inverse arm does not emit the subject search (or the forward arm does): inverse="+shortFormat(inv)+" forward="+shortFormat(fwd))
+			if !mentionsInverse {
+				continue
 			}
+			world := func(inverse bool) string {
+				var out []string
+				proto := &symWalker{Inline: samePkgInline(gen), Assume: map[string]bool{prm0.Name() + ".Inverse": inverse}}
+				proto.OnCall = func(w *symWalker, call *ast.CallExpr, fn types.Object, args []*Sym, result *Sym) {
+					id, ok := ast.Unparen(call.Fun).(*ast.Ident)
+					if !ok || id.Name != "append" || len(args) < 2 || call.Ellipsis.IsValid() {
+						return
+					}
+					if tv, ok := w.info.Types[call]; !ok || tv.Type.String() != "[]string" {
+						return
+					}
+					for _, a := range args[1:] {
+						out = append(out, a.Template())
+					}
+				}
+				p.SymWalk(gen, fd, proto, nil)
+				return strings.Join(out, "\n")
+			}
+			inv, fwd := world(true), world(false)
+			okInv := strings.Contains(inv, "search_") && strings.Contains(inv, "with data.object as") && !strings.Contains(fwd, "search_")
+			okFwd := fwd != "" && (strings.Contains(fwd, "nested_nodes") || strings.Contains(fwd, "object.get") || strings.Contains(fwd, "gen_path_extension"))
+			r.Check(okInv && okFwd, "C02.P3", key+"#converse", p.Pos(fd.Pos()), "p^ searches the subjects whose p is the current node; p reads the current node's p", "the Inverse arm does not emit the subject search (or the forward arm does): inverse="+shortFormat(inv)+" forward="+shortFormat(fwd))
 		}
 	}
 }
